@@ -28,7 +28,7 @@ def cfg_fn(rng):
     return gen.random_config(rng, p3d=0.1, extras=False)
 
 
-WEIGHTS = {"undo": 3, "redo": 3, "paint": 5, "swap": 2.5}
+WEIGHTS = {"ctrl": 0.8, "undo": 3, "redo": 3, "paint": 5, "swap": 2.5}
 
 
 def plan(tier, seed):
